@@ -170,6 +170,26 @@ def shard_enum(shard, nshards, tier, seed, scratch):
                                 seen_clauses.add(key)
                                 failures.append({'leg': 'enum-long-lines', 'clause': v.clause, 'detail': v.detail, 'case': {'kind': 'line', 'line': line, 'delim': d, 'policy': policy}})
         stats.bump('enumerated-long-lines-delim-' + repr(d))
+    # long runs of spaces around quoted fields (column-aligned CSV): 15 / 16 / 17 / 33 / 64 / 65 spaces before and after
+    for d in (',', '::'):
+        for k in (0, 1, 15, 16, 17, 33, 64, 65):
+            for m in (0, 1, 15, 16, 17, 64):
+                for core in ('"a' + d + 'b"', '"Smith' + d + ' ""John' + '"' * 3, '""', '"x"'):
+                    for line in ('id7' + d + ' ' * k + core + ' ' * m + d + '42', ' ' * k + core + ' ' * m, 'x' + d + ' ' * k + core + ' ' * m, ' ' * k + core + ' ' * m + d + ' ' * k + core):
+                        counter += 1
+                        if counter % nshards != shard:
+                            continue
+                        for policy in ('quoted', 'quoted_rfc'):
+                            stats.evaluations += 1
+                            stats.nontrivial_counted += 1
+                            try:
+                                check_line(line, d, policy, via_iterator=True)
+                            except Violation as v:
+                                key = (policy, 'space-runs', v.clause)
+                                if key not in seen_clauses:
+                                    seen_clauses.add(key)
+                                    failures.append({'leg': 'enum-space-runs', 'clause': v.clause, 'detail': v.detail, 'case': {'kind': 'line', 'line': line, 'delim': d, 'policy': policy}})
+    stats.bump('enumerated-space-runs')
     # the plain policies on long lines: every short core of spaces / delimiters behind 257, 300 and 1100 ordinary characters
     for policy, d in (('whitespace', ' '), ('simple', ','), ('simple', '::'), ('simple', ' '), ('monocolumn', '')):
         alphabet = [' ', 'x', '"'] if policy != 'simple' or d == ' ' else [d, 'x', ' ']
